@@ -1,0 +1,36 @@
+//go:build verif
+
+package clightning
+
+import (
+	"github.com/elementsproject/glightning/glightning"
+)
+
+// Verification hooks (build tag verif, add-only): reach the unexported route
+// builder and construct a client that talks to a (fake) lightningd socket, so
+// the payment path PayInvoiceViaChannel / RebalancePayment can be observed
+// without a node.
+
+// VerifBuildDirectClaimRoute calls buildDirectClaimRoute unchanged.
+func VerifBuildDirectClaimRoute(
+	bolt11 *glightning.DecodedBolt11,
+	scid string,
+	maxTotalCLTVDelta uint32,
+) ([]glightning.RouteHop, error) {
+	return buildDirectClaimRoute(bolt11, scid, maxTotalCLTVDelta)
+}
+
+// VerifNewClientOnSocket returns a ClightningClient whose only initialised
+// part is the lightningd RPC connection (dir/rpcFile is a unix socket).
+func VerifNewClientOnSocket(dir, rpcFile string) (*ClightningClient, error) {
+	cl := &ClightningClient{glightning: glightning.NewLightning()}
+	if err := cl.glightning.StartUp(rpcFile, dir); err != nil {
+		return nil, err
+	}
+	return cl, nil
+}
+
+// VerifShutdown closes the RPC connection opened by VerifNewClientOnSocket.
+func (cl *ClightningClient) VerifShutdown() {
+	cl.glightning.Shutdown()
+}
